@@ -171,6 +171,7 @@ func cmdC04(r *RNG, n int, e *Emitter, args []string) {
 }
 
 func emitC04(e *Emitter, id string, s, c clip.Paths64, ct clip.ClipType, fr clip.FillRule, info GenInfo, useWrapper bool) {
+	noteInput(map[string]any{"subject": pathsJSON(s), "clip": pathsJSON(c), "clip_nil": false, "ct": int(ct), "fr": int(fr), "api": "BooleanOpPolyTree64 / Clipper64.ExecutePolyTree64"})
 	var flat clip.Paths64
 	var nodes []treeNode
 	api := "BooleanOpPolyTree64"
